@@ -89,8 +89,18 @@ class DPSKModulator(BaseModulator):
                 for j, bit in enumerate(bin_str):
                     bit_patterns[i, j] = int(bit)
 
+        # Map from the integer value of a bit group to the phase-shift index labelled with
+        # that group (the identity for natural binary labelling)
+        bit_to_symbol_map = torch.zeros(self.order, dtype=torch.long)
+        for i in range(self.order):
+            value = 0
+            for j in range(self._bits_per_symbol):
+                value = value * 2 + int(bit_patterns[i, j])
+            bit_to_symbol_map[value] = i
+
         self.register_buffer("constellation", constellation)
         self.register_buffer("bit_patterns", bit_patterns)
+        self.register_buffer("bit_to_symbol_map", bit_to_symbol_map)
 
     def forward(self, x: torch.Tensor, *args, **kwargs) -> torch.Tensor:
         """Modulate bit groups to DPSK symbols.
@@ -140,8 +150,10 @@ class DPSKModulator(BaseModulator):
 
             symbol_len = x.shape[-1]
 
-        # Map indices to differential phase shifts
-        phase_shifts = self.constellation[indices]
+        # Map indices to differential phase shifts: an index is the integer value of a bit
+        # group, and the phase shift chosen is the one labelled with that group (this is the
+        # identity for natural binary labelling, and what the demodulator inverts for Gray)
+        phase_shifts = self.constellation[self.bit_to_symbol_map[indices]]
 
         # Apply differential encoding
         ref_phase = self._phase_memory.clone().detach()
